@@ -72,6 +72,14 @@ pub enum Event {
     },
     /// exit of `DefaultKKTSystem::solve`: the direction it assembled, the right-hand side it
     /// was given and the iterate it linearised about (dir 0 = affine, 1 = combined)
+    /// exit of `backtrack_step_to_barrier` (solver.rs): the step it was given, the shrink
+    /// factor, the answers of the `barrier < 1` tests in order, and the step it returned
+    BarrierBt {
+        alpha_init: f64,
+        step: f64,
+        answers: Vec<bool>,
+        alpha_out: f64,
+    },
     /// exit of `DefaultKKTSystem::solve_initial_point` (before the shift into the cones):
     /// the point it produced; `lp` = the P = 0 branch was taken
     InitPoint {
